@@ -2890,8 +2890,11 @@ class SFTPClientHandler(SFTPHandler):
             packet = cast(SSHPacket, await self._make_request(
                 b'limits@openssh.com'))
 
-            limits = SFTPLimits.decode(packet)
-            packet.check_end()
+            try:
+                limits = SFTPLimits.decode(packet)
+                packet.check_end()
+            except PacketDecodeError as exc:
+                raise SFTPBadMessage(str(exc)) from None
 
             limits.log(self.logger, 'Received')
 
@@ -3055,8 +3058,11 @@ class SFTPClientHandler(SFTPHandler):
             packet = cast(SSHPacket, await self._make_request(
                 b'statvfs@openssh.com', String(path)))
 
-            vfsattrs = SFTPVFSAttrs.decode(packet, self._version)
-            packet.check_end()
+            try:
+                vfsattrs = SFTPVFSAttrs.decode(packet, self._version)
+                packet.check_end()
+            except PacketDecodeError as exc:
+                raise SFTPBadMessage(str(exc)) from None
 
             self.logger.debug1('Received %s', vfsattrs)
 
@@ -3073,8 +3079,11 @@ class SFTPClientHandler(SFTPHandler):
             packet = cast(SSHPacket, await self._make_request(
                 b'fstatvfs@openssh.com', String(handle)))
 
-            vfsattrs = SFTPVFSAttrs.decode(packet, self._version)
-            packet.check_end()
+            try:
+                vfsattrs = SFTPVFSAttrs.decode(packet, self._version)
+                packet.check_end()
+            except PacketDecodeError as exc:
+                raise SFTPBadMessage(str(exc)) from None
 
             self.logger.debug1('Received %s', vfsattrs)
 
@@ -3300,8 +3309,11 @@ class SFTPClientHandler(SFTPHandler):
                 b'ranges@asyncssh.com', String(handle),
                 UInt64(offset), UInt64(length)))
 
-            result = SFTPRanges.decode(packet)
-            packet.check_end()
+            try:
+                result = SFTPRanges.decode(packet)
+                packet.check_end()
+            except PacketDecodeError as exc:
+                raise SFTPBadMessage(str(exc)) from None
 
             result.log(self.logger, 'Received')
 
